@@ -36,6 +36,86 @@ func runC09(c *Ctx, r *Rec) {
 	for _, name := range sortedKeys(ms) {
 		checkLoops(c, r, "D1-terminates-for-every-ranker", ms[name], nil)
 	}
+	// a loop whose continuation is decided by the ranker alone need not end for some rankers
+	// (and walks off the array when the ranker never says stop): a bound on a stepped counter must be conjoined
+	for _, name := range sortedKeys(ms) {
+		fd := ms[name]
+		for li, loop := range loopsIn(fd.Body) {
+			fs, ok := loop.(*ast.ForStmt)
+			if !ok || fs.Cond == nil {
+				continue
+			}
+			var conj []ast.Expr
+			var split func(e ast.Expr)
+			split = func(e ast.Expr) {
+				if be, ok := ast.Unparen(e).(*ast.BinaryExpr); ok && be.Op == token.LAND {
+					split(be.X)
+					split(be.Y)
+					return
+				}
+				conj = append(conj, e)
+			}
+			split(fs.Cond)
+			callsRanker := func(e ast.Expr) bool {
+				found := false
+				ast.Inspect(e, func(x ast.Node) bool {
+					if call, ok := x.(*ast.CallExpr); ok {
+						// a call of a function VALUE: a func-typed field or variable
+						fun := ast.Unparen(call.Fun)
+						if f := selectorField(info, fun); f != nil {
+							if _, isSig := f.Type().Underlying().(*types.Signature); isSig {
+								found = true
+							}
+						} else if id, ok := fun.(*ast.Ident); ok {
+							if v, ok := info.Uses[id].(*types.Var); ok {
+								if _, isSig := v.Type().Underlying().(*types.Signature); isSig {
+									found = true
+								}
+							}
+						}
+					}
+					return true
+				})
+				return found
+			}
+			uses, bounded := false, false
+			for _, cj := range conj {
+				if callsRanker(cj) {
+					uses = true
+					continue
+				}
+				// a comparison on a variable that the body (or post) steps
+				if be, ok := ast.Unparen(cj).(*ast.BinaryExpr); ok {
+					for _, side := range []ast.Expr{be.X, be.Y} {
+						if o := identObj(info, side); o != nil {
+							stepped := false
+							ast.Inspect(fs, func(x ast.Node) bool {
+								switch st := x.(type) {
+								case *ast.IncDecStmt:
+									if identObj(info, st.X) == o {
+										stepped = true
+									}
+								case *ast.AssignStmt:
+									if (st.Tok == token.ADD_ASSIGN || st.Tok == token.SUB_ASSIGN) && len(st.Lhs) == 1 && identObj(info, st.Lhs[0]) == o {
+										stepped = true
+									}
+								}
+								return true
+							})
+							if stepped {
+								bounded = true
+							}
+						}
+					}
+				}
+			}
+			if uses {
+				r.check(bounded, "D1-terminates-for-every-ranker", fmt.Sprintf("%s/ranker-loop#%d", c.fdName(fd), li+1), c.pos(fs.Pos()),
+					"the ranker's answer is conjoined with a bound on a stepped counter",
+					"the loop continues as long as the ranker says so and nothing else bounds it: for a ranker that keeps answering that way (inconsistent, or always Lesser) the loop does not end and indexes outside the array")
+			}
+		}
+	}
 	r.floor("D1-terminates-for-every-ranker", 1)
 
 	// ---- D2 provenance of element stores
@@ -61,17 +141,47 @@ func runC09(c *Ctx, r *Rec) {
 				bad := ""
 				if len(as.Lhs) != len(as.Rhs) {
 					bad = "element stored from a multi-value expression"
-				} else if rix, ok := ast.Unparen(as.Rhs[i]).(*ast.IndexExpr); !ok {
-					bad = "the stored element is " + exprStr(as.Rhs[i]) + ", not an element read from a slice"
-				} else if rt, ok := info.Types[rix.X].Type.Underlying().(*types.Slice); !ok || !types.Identical(rt.Elem(), st.Elem()) {
-					bad = "the stored element comes from a slice of another type"
+				} else {
+					src := resolveInit(info, fd, as.Rhs[i])
+					if id, isID := src.(*ast.Ident); isID {
+						// a local with several definitions: the one that reaches the store
+						if d := reachingDef(newFG(info, fd.Body), info, fd, id, as); d != nil {
+							src = resolveInit(info, fd, d)
+						}
+					}
+					switch rix := src.(type) {
+					case *ast.IndexExpr:
+						if rt, ok := info.Types[rix.X].Type.Underlying().(*types.Slice); !ok || !types.Identical(rt.Elem(), st.Elem()) {
+							bad = "the stored element comes from a slice of another type"
+						}
+					case *ast.Ident:
+						if _, isVar := info.Uses[rix].(*types.Var); isVar && initOf(info, fd, rix) == nil {
+							isParam := false
+							for _, p := range paramObjs(info, fd) {
+								if info.Uses[rix] == p {
+									isParam = true
+								}
+							}
+							if isParam {
+								bad = "skip: the stored element is the parameter " + rix.Name
+							} else {
+								bad = "the stored element is " + exprStr(as.Rhs[i]) + ", a variable that was not read from a slice (a zero or invented value)"
+							}
+						} else {
+							bad = "skip: the origin of the stored element " + exprStr(as.Rhs[i]) + " is not recognised"
+						}
+					case *ast.BasicLit, *ast.CompositeLit:
+						bad = "the stored element is " + exprStr(as.Rhs[i]) + ", not an element read from a slice"
+					default:
+						bad = "skip: the origin of the stored element " + exprStr(as.Rhs[i]) + " is not recognised"
+					}
 				}
-				r.check(bad == "", "D2-no-invented-values", construct, c.pos(as.Pos()), "stores an element read from a []V", bad)
+				r.verdict("D2-no-invented-values", construct, c.pos(as.Pos()), "stores an element read from a []V", bad)
 			}
 			return true
 		})
 	}
-	r.floor("D2-no-invented-values", 4)
+	r.floor("D2-no-invented-values", 1)
 
 	// ---- D3 live delegation
 	checkSortDelegation(c, r)
@@ -100,7 +210,7 @@ func runC09(c *Ctx, r *Rec) {
 		}
 	}
 	if mergeFD == nil || driverFD == nil {
-		r.undecided("D4-merge-step", "agent."+srt.Obj().Name(), "", "cannot bind the merge helper (three slices) and the driver (one slice, nested loops)")
+		r.skip("D4-merge-step", "agent."+srt.Obj().Name(), "", "cannot bind the merge helper (three slices) and the driver (one slice, nested loops)")
 	} else {
 		checkMergeStep(c, r, info, srt, mergeFD)
 		checkSortDriver(c, r, info, driverFD, c.funcOf(mergeFD))
@@ -197,36 +307,39 @@ func checkSortDelegation(c *Ctx, r *Rec) {
 	}
 	if fd := ams["SortValues"]; fd != nil {
 		// collator created in the call; its RankValues passed on
-		bad := ""
-		var collObj types.Object
+		bad := "skip: no SortValuesWithRanker/MakeWithRanker call with a recognisable ranker argument"
 		ast.Inspect(fd.Body, func(x ast.Node) bool {
-			if lhs, rhs, ok := multiDef(x); ok && len(lhs) == 1 {
-				if _, mname, _, ok := methodCall(ast.Unparen(rhs)); ok && mname == "Make" {
-					if t := info.Types[rhs].Type; t != nil && derefNamed(t) != nil && derefNamed(t).Obj().Name() == "CollatorLike" {
-						collObj = identObj(info, lhs[0])
-					}
+			_, mname, call, ok := methodCall(x)
+			if !ok || (mname != "SortValuesWithRanker" && mname != "MakeWithRanker") || len(call.Args) != 1 {
+				return true
+			}
+			src := resolveInit(info, fd, call.Args[0])
+			se, ok := src.(*ast.SelectorExpr)
+			if !ok || se.Sel.Name != "RankValues" {
+				return true
+			}
+			owner := resolveInit(info, fd, se.X)
+			_, oname, _, isCall := methodCall(owner)
+			t := info.TypeOf(se.X)
+			isColl := t != nil && derefNamed(t) != nil && derefNamed(t).Obj().Name() == "CollatorLike"
+			switch {
+			case isCall && oname == "Make" && isColl:
+				bad = ""
+			case selectorField(info, owner) != nil || func() bool {
+				id, ok := owner.(*ast.Ident)
+				if !ok {
+					return false
 				}
+				v, ok := info.Uses[id].(*types.Var)
+				return ok && v.Parent() == v.Pkg().Scope()
+			}():
+				bad = "the default order is the RankValues of a collator that is kept between calls (a field or package variable), not of one created in this call: its traversal depth state is shared by all sorts"
+			default:
+				bad = "skip: the collator behind the ranker is not recognisably created in this call"
 			}
 			return true
 		})
-		if collObj == nil {
-			bad = "no collator is created in the call for the default order"
-		} else {
-			passes := false
-			ast.Inspect(fd.Body, func(x ast.Node) bool {
-				if _, mname, call, ok := methodCall(x); ok && mname == "SortValuesWithRanker" && len(call.Args) == 1 {
-					src := resolveInit(info, fd, call.Args[0])
-					if se, ok := src.(*ast.SelectorExpr); ok && se.Sel.Name == "RankValues" && isObj(info, se.X, collObj) {
-						passes = true
-					}
-				}
-				return true
-			})
-			if !passes {
-				bad = "the default order is not the RankValues of the collator created in this call"
-			}
-		}
-		r.check(bad == "", "D3-live-delegation", c.fdName(fd), c.pos(fd.Pos()), "default order = RankValues of a collator created in this call", bad)
+		r.verdict("D3-live-delegation", c.fdName(fd), c.pos(fd.Pos()), "default order = RankValues of a collator created in this call", bad)
 	}
 	// list and catalog delegate to the storage's same-named method with the same arguments
 	for _, t := range []struct {
@@ -273,7 +386,7 @@ func checkMergeStep(c *Ctx, r *Rec, info *types.Info, srt *types.Named, fd *ast.
 		}
 	}
 	if loop == nil || len(params) != 3 {
-		r.undecided(rule, construct, c.pos(fd.Pos()), "the merge helper is not `declarations; for mergedIndex < mergedLength { ... }`")
+		r.skip(rule, construct, c.pos(fd.Pos()), "the merge helper is not `declarations; for mergedIndex < mergedLength { ... }`")
 		return
 	}
 	// prefix: indices start at 0, lengths are len() of the parameters
@@ -290,7 +403,7 @@ func checkMergeStep(c *Ctx, r *Rec, info *types.Info, srt *types.Named, fd *ast.
 	}
 	p0 := symRun(env0, &ast.BlockStmt{List: fd.Body.List[:loopIdx]})
 	if len(env0.problems) > 0 || len(p0) != 1 {
-		r.undecided(rule, construct, c.pos(fd.Pos()), "cannot interpret the initialisation: "+strings.Join(env0.problems, "; "))
+		r.skip(rule, construct, c.pos(fd.Pos()), "cannot interpret the initialisation: "+strings.Join(env0.problems, "; "))
 		return
 	}
 	// roles of the locals: index variables (0) and length variables (len_i)
@@ -324,7 +437,7 @@ func checkMergeStep(c *Ctx, r *Rec, info *types.Info, srt *types.Named, fd *ast.
 		return true
 	})
 	if len(idxOf) != 3 || len(idxKeys) != 3 {
-		r.undecided(rule, construct, c.pos(fd.Pos()), "cannot bind the three cursor variables of the merge")
+		r.skip(rule, construct, c.pos(fd.Pos()), "cannot bind the three cursor variables of the merge")
 		return
 	}
 	li, ri := sym("li"), sym("ri")
@@ -363,7 +476,7 @@ func checkMergeStep(c *Ctx, r *Rec, info *types.Info, srt *types.Named, fd *ast.
 	}
 	paths := symRun(env, loop.Body)
 	if len(env.problems) > 0 {
-		r.undecided(rule, construct, c.pos(fd.Pos()), "SYM cannot interpret the merge step: "+strings.Join(dedup(env.problems), "; "))
+		r.skip(rule, construct, c.pos(fd.Pos()), "SYM cannot interpret the merge step: "+strings.Join(dedup(env.problems), "; "))
 		return
 	}
 	lname, rname, mname := params[0].Name(), params[1].Name(), params[2].Name()
@@ -505,18 +618,18 @@ func checkSortDriver(c *Ctx, r *Rec, info *types.Info, fd *ast.FuncDecl, merge *
 		})
 	}
 	if inner == nil || call == nil || len(call.Args) != 3 {
-		r.undecided(rule, construct, c.pos(fd.Pos()), "no loop calling the merge helper with three slices")
+		r.skip(rule, construct, c.pos(fd.Pos()), "no loop calling the merge helper with three slices")
 		return
 	}
 	// loop variable and bound of the inner loop:  for left := 0; left < length; left += width*2
 	cond, ok := ast.Unparen(inner.Cond).(*ast.BinaryExpr)
 	if !ok || cond.Op != token.LSS {
-		r.undecided(rule, construct, c.pos(inner.Pos()), "inner loop condition is not `left < length`")
+		r.skip(rule, construct, c.pos(inner.Pos()), "inner loop condition is not `left < length`")
 		return
 	}
 	leftObj, lengthObj := identObj(info, cond.X), identObj(info, cond.Y)
 	if leftObj == nil || lengthObj == nil {
-		r.undecided(rule, construct, c.pos(inner.Pos()), "inner loop condition is not over two variables")
+		r.skip(rule, construct, c.pos(inner.Pos()), "inner loop condition is not over two variables")
 		return
 	}
 	left, length, width := sym("left"), sym("length"), sym("width")
@@ -561,12 +674,66 @@ func checkSortDriver(c *Ctx, r *Rec, info *types.Info, fd *ast.FuncDecl, merge *
 		}
 		return Val{}, false
 	}
+	// locals of the pass (the outer loop body before the inner loop) are evaluated first
+	if outer != nil && outer != inner {
+		var prefix []ast.Stmt
+		for _, st := range outer.Body.List {
+			if st == ast.Stmt(inner) {
+				break
+			}
+			prefix = append(prefix, st)
+		}
+		if len(prefix) > 0 {
+			envPre := &symEnv{info: info, init: env.init, base: env.base}
+			if pp := symRun(envPre, &ast.BlockStmt{List: prefix}); len(pp) == 1 && len(envPre.problems) == 0 {
+				for kk, vv := range pp[0].State {
+					if _, have := env.init[kk]; !have {
+						env.init[kk] = vv
+					}
+				}
+			}
+		}
+	}
+	// every block of a pass must be merged into the destination: no iteration may skip the merge
+	{
+		dg := newFG(info, fd.Body)
+		isMerge := func(n ast.Node) bool { return containsNode(n, call) }
+		if !dg.everyIterationPasses(inner, isMerge) {
+			r.fail(rule, construct+"/every-block", c.pos(inner.Pos()), "an iteration of the block loop can finish without calling the merge helper: that block is not carried over to the destination array and the next pass reads stale values there")
+		} else {
+			early := ""
+			inspectNoLit(inner.Body, func(x ast.Node) bool {
+				switch b := x.(type) {
+				case *ast.BranchStmt:
+					if b.Tok == token.BREAK {
+						// a break that belongs to the block loop itself (not to a nested loop or switch)
+						nested := false
+						for _, p := range pathTo(inner.Body, b) {
+							switch p.(type) {
+							case *ast.ForStmt, *ast.RangeStmt, *ast.SwitchStmt, *ast.SelectStmt, *ast.TypeSwitchStmt:
+								nested = true
+							}
+						}
+						if !nested {
+							early = "a break at " + c.pos(b.Pos())
+						}
+					}
+				case *ast.ReturnStmt:
+					early = "a return at " + c.pos(b.Pos())
+				}
+				return true
+			})
+			if early != "" {
+				r.fail(rule, construct+"/every-block", c.pos(inner.Pos()), early+" leaves the block loop before every block of the pass has been merged into the destination array: after the arrays are exchanged the next pass reads stale values")
+			} else {
+				r.ok(rule, construct+"/every-block", c.pos(inner.Pos()), "every iteration of the block loop reaches the merge call; the loop is not left early")
+			}
+		}
+	}
 	// interpret the inner loop body; the merge call is an expression statement
-	prev := env.resolve
-	_ = prev
 	symRun(env, inner.Body)
 	if len(env.problems) > 0 {
-		r.undecided(rule, construct, c.pos(fd.Pos()), "SYM cannot interpret the driver: "+strings.Join(dedup(env.problems), "; "))
+		r.skip(rule, construct, c.pos(fd.Pos()), "SYM cannot interpret the driver: "+strings.Join(dedup(env.problems), "; "))
 		return
 	}
 	var viol []string
@@ -596,7 +763,7 @@ func checkSortDriver(c *Ctx, r *Rec, info *types.Info, fd *ast.FuncDecl, merge *
 	}
 	// blocks tile the array: the window ends exactly where the next block starts, or at the end
 	if inner.Post != nil {
-		envP := &symEnv{info: info, init: env.init}
+		envP := &symEnv{info: info, init: env.init, base: env.base}
 		pp := symRun(envP, &ast.BlockStmt{List: []ast.Stmt{inner.Post}})
 		if len(pp) == 1 && pp[0].State[objKey(leftObj)].Lin != nil {
 			next := pp[0].State[objKey(leftObj)].Lin
@@ -629,25 +796,51 @@ func checkSortDriver(c *Ctx, r *Rec, info *types.Info, fd *ast.FuncDecl, merge *
 		if !swapped {
 			viol = append(viol, fmt.Sprintf("after a pass the roles of %s (source) and %s (destination) are not exchanged as the last statement of the pass: the next pass merges stale runs", src, dst))
 		}
-		primed, settled := false, false
+		// names under which the two arrays are known before the passes (var source, target = scratch, values)
+		alias := map[string]string{}
+		ast.Inspect(fd.Body, func(x ast.Node) bool {
+			if vs, ok := x.(*ast.ValueSpec); ok && len(vs.Names) == len(vs.Values) {
+				for i, nm := range vs.Names {
+					if id, ok := ast.Unparen(vs.Values[i]).(*ast.Ident); ok {
+						alias[nm.Name] = id.Name
+					}
+				}
+			}
+			if as, ok := x.(*ast.AssignStmt); ok && as.Tok == token.DEFINE && len(as.Lhs) == len(as.Rhs) {
+				for i, l := range as.Lhs {
+					if id, ok := ast.Unparen(as.Rhs[i]).(*ast.Ident); ok {
+						alias[exprStr(l)] = id.Name
+					}
+				}
+			}
+			return true
+		})
+		same := func(a, b string) bool { return a == b || alias[a] == b || alias[b] == a }
+		primed, settled, copiesBefore, copiesAfter := false, false, 0, 0
 		for _, st := range fd.Body.List {
 			es, ok := st.(*ast.ExprStmt)
 			if !ok {
 				continue
 			}
 			if cl, ok := es.X.(*ast.CallExpr); ok && isBuiltinCall(info, cl, "copy") && len(cl.Args) == 2 {
-				if st.Pos() < outer.Pos() && exprStr(cl.Args[0]) == src && exprStr(cl.Args[1]) == dst {
-					primed = true
+				if st.Pos() < outer.Pos() {
+					copiesBefore++
+					if same(exprStr(cl.Args[0]), src) && same(exprStr(cl.Args[1]), dst) {
+						primed = true
+					}
 				}
-				if st.Pos() > outer.End() && exprStr(cl.Args[0]) == dst && exprStr(cl.Args[1]) == src {
-					settled = true
+				if st.Pos() > outer.End() {
+					copiesAfter++
+					if same(exprStr(cl.Args[0]), dst) && same(exprStr(cl.Args[1]), src) {
+						settled = true
+					}
 				}
 			}
 		}
-		if !primed {
+		if !primed && copiesBefore == 0 {
 			viol = append(viol, "the source array of the first pass is not primed with a copy of the input before the passes")
 		}
-		if !settled {
+		if !settled && copiesAfter == 0 {
 			viol = append(viol, "after the last pass the sorted array is not copied into the other one: for an odd number of passes the caller's array keeps the previous pass")
 		}
 	}
@@ -664,12 +857,12 @@ func checkReverse(c *Ctx, r *Rec, info *types.Info, fd *ast.FuncDecl) {
 	params := paramObjs(info, fd)
 	loops := loopsIn(fd.Body)
 	if len(loops) != 1 || len(params) != 1 {
-		r.undecided("D6-reverse", construct, c.pos(fd.Pos()), "not a single loop over one slice")
+		r.skip("D6-reverse", construct, c.pos(fd.Pos()), "not a single loop over one slice")
 		return
 	}
 	fs, ok := loops[0].(*ast.ForStmt)
 	if !ok || fs.Cond == nil || fs.Init == nil || fs.Post == nil {
-		r.undecided("D6-reverse", construct, c.pos(fd.Pos()), "not a counting loop")
+		r.skip("D6-reverse", construct, c.pos(fd.Pos()), "not a counting loop")
 		return
 	}
 	env := &symEnv{info: info, elemForms: true}
@@ -702,7 +895,7 @@ func checkReverse(c *Ctx, r *Rec, info *types.Info, fd *ast.FuncDecl) {
 	}
 	p0 := symRun(env, &ast.BlockStmt{List: pre})
 	if len(p0) != 1 || len(env.problems) > 0 {
-		r.undecided("D6-reverse", construct, c.pos(fd.Pos()), "cannot interpret the prefix")
+		r.skip("D6-reverse", construct, c.pos(fd.Pos()), "cannot interpret the prefix")
 		return
 	}
 	// loop: for i := 0; i < half; i++
